@@ -20,8 +20,9 @@ MUTANTS = {
   ("clamp-hi", "include/etl/_algorithm/clamp.hpp", "return comp(v, lo) ? lo : comp(hi, v) ? hi : v;", "return comp(v, lo) ? lo : comp(hi, v) ? v : v;"),
   ("substr-no-clamp", SV, "auto const rcount = etl::min(count, size() - pos);\n        return basic_string_view{_begin + pos, rcount};",
                           "auto const rcount = etl::min(count, size());\n        return basic_string_view{_begin + pos, rcount};"),
-  ("ffno-le", SV, "auto const* str = data();\n        if (pos < size()) {", "auto const* str = data();\n        if (pos <= size()) {"),
-  ("rfind-char-pos", SV, "if (pos < size()) {\n            ++pos;", "if (pos < size() - 1) {\n            ++pos;"),
+  ("ffno-start", SV, "for (auto const* s = str + pos; s != last; ++s) {\n                if (Traits::find(sv.data(), sv.size(), *s) == nullptr) {", "for (auto const* s = str + pos + 1; s != last; ++s) {\n                if (Traits::find(sv.data(), sv.size(), *s) == nullptr) {"),
+  ("rfind-char-pos", SV, "if (pos < size()) {\n            ++pos;", "if (pos < size()) {\n            pos += 2;"),
+  ("ffno-char-eq", SV, "if (!Traits::eq(*s, c)) {\n                    return static_cast<size_type>(s - data());", "if (Traits::eq(*s, c)) {\n                    return static_cast<size_type>(s - data());"),
   ("ends_with-gt", SV, "return size() >= sv.size() && compare(size() - sv.size(), npos, sv) == 0;", "return size() > sv.size() && compare(size() - sv.size(), npos, sv) == 0;"),
   ("copy-default-pos", SV, "copy(Char* dest, size_type count, size_type pos = 0) const", "copy(Char* dest, size_type count, size_type pos = 1) const"),
   ("traits-find-first-only", CT, "for (size_t i = 0; i < count; ++i) {\n            if (str[i] == token) {", "for (size_t i = 1; i < count; ++i) {\n            if (str[i] == token) {"),
@@ -29,7 +30,29 @@ MUTANTS = {
   ("flo-default-pos", SV, "find_last_of(basic_string_view v, size_type pos = npos) const noexcept", "find_last_of(basic_string_view v, size_type pos = 0) const noexcept"),
   ("compare-count2-ignored", SV, "return substr(pos1, count1).compare(basic_string_view(s, count2));", "return substr(pos1, count1).compare(basic_string_view(s));"),
  ],
- "C04": [],
+ "C04": [
+  ("set_size-no-terminator", IS, "_storage.set_size(newSize);\n        unsafe_at(newSize) = Char(0);", "_storage.set_size(newSize);"),
+  ("append-fill-clamp-off-by-one", IS, "auto const safeCount = etl::min(count, capacity() - size());\n        auto const newSize   = size() + safeCount;",
+                                       "auto const safeCount = etl::min(count, capacity() - size() + 1);\n        auto const newSize   = size() + safeCount;"),
+  ("erase-count-not-clamped", IS, "auto safeCount = etl::min(count, size() - index);", "auto safeCount = etl::min(count, size());"),
+  ("rotate-first-branch", "include/etl/_algorithm/rotate.hpp", "if (write == nextRead) {\n            nextRead = read;", "if (write != nextRead) {\n            nextRead = read;"),
+  ("substr-clamp", IS, "return basic_inplace_string(data() + pos, etl::min(count, size() - pos));", "return basic_inplace_string(data() + pos, etl::min(count, size()));"),
+  ("cstr-less-than", IS, "operator<(Char const* lhs, etl::basic_inplace_string<Char, Capacity1, Traits> const& rhs) noexcept -> bool\n{\n    return rhs.compare(lhs) > 0;",
+                        "operator<(Char const* lhs, etl::basic_inplace_string<Char, Capacity1, Traits> const& rhs) noexcept -> bool\n{\n    return rhs.compare(lhs) >= 0;"),
+  ("strings-find-last-position", "include/etl/_strings/find.hpp", "if (pos <= haystack.size() - needle.size()) {", "if (pos < haystack.size() - needle.size()) {"),
+  ("copy-clamp", IS, "auto const* last  = first + etl::min(count, size() - pos);", "auto const* last  = first + etl::min(count, size());"),
+  ("swap_ranges-skips-first", "include/etl/_algorithm/swap_ranges.hpp", "while (first1 != last1) {\n        etl::iter_swap(first1, first2);", "++first1;\n    ++first2;\n    while (first1 != last1) {\n        etl::iter_swap(first1, first2);"),
+  ("pop_back-no-terminator", IS, "TETL_PRECONDITION(not empty());\n        unsafe_set_size(size() - 1);", "TETL_PRECONDITION(not empty());\n        _storage.set_size(size() - 1);"),
+  ("assign-sub-default-count", IS, "constexpr auto assign(basic_inplace_string const& str, size_type pos, size_type count = npos) noexcept", "constexpr auto assign(basic_inplace_string const& str, size_type pos, size_type count = 0) noexcept"),
+  ("resize-default-char", IS, "constexpr auto resize(size_type count) noexcept -> void { resize(count, Char()); }", "constexpr auto resize(size_type count) noexcept -> void { resize(count, Char(' ')); }"),
+  ("insert-fill-one-more", IS, "for (size_type i = 0; i < count; ++i) {\n            insert_impl(begin() + index, &ch, 1);", "for (size_type i = 0; i <= count; ++i) {\n            insert_impl(begin() + index, &ch, 1);"),
+  ("find_first_of-default-pos", IS, "find_first_of(Char ch, size_type pos = 0) const noexcept", "find_first_of(Char ch, size_type pos = 1) const noexcept"),
+  ("tiny-layout-size-off", IS, "return Capacity - size_type(_buffer[Capacity]);", "return Capacity - size_type(static_cast<unsigned char>(_buffer[Capacity]) & 0x7);"),
+  ("compare-3arg-clamp", IS, "auto const sz  = count > size() - pos ? size() : count;\n        auto const sub = basic_string_view<Char, Traits>(*this).substr(pos, sz);\n        return sub.compare(str);",
+                            "auto const sz  = count > size() - pos ? size() : count;\n        auto const sub = basic_string_view<Char, Traits>(*this).substr(0, sz);\n        return sub.compare(str);"),
+  ("plus-char-lhs", IS, "auto str = basic_inplace_string<Char, Capacity, Traits>{1, lhs};\n    str.append(rhs);", "auto str = basic_inplace_string<Char, Capacity, Traits>{rhs};\n    str.append(1, lhs);"),
+  ("erase-free-count", IS, "auto it = etl::remove(begin(c), end(c), value);\n    auto r  = etl::distance(it, end(c));", "auto it = etl::remove(begin(c), end(c), value);\n    auto r  = etl::distance(begin(c), it);"),
+ ],
 }
 
 
